@@ -141,6 +141,54 @@ def run(ctx):
                 any('min' in repr(x) for x in (t[2], t[3]))
             okret = shape and bool(bounded)
     ctx.check(okret, 'R2', 'the result is value % range + min, read after the loop bounded value by limit', where(ui), '', key='R2|uniform_int|result')
+    # the number of values is max - min + 1, computed without signed overflow; the full-range shortcut still adds min
+    pmin, pmax = lib.parm_i(ui, 0), lib.parm_i(ui, 1)
+
+    def unsigned_of(t, parm):
+        return t[0] in ('cast', 'conv') and 'unsigned' in str(t[1]) and (t[2] == parm or unsigned_of(t[2], parm) or (t[2][0] in ('cast', 'conv') and t[2][2] == parm))
+    okcount = None
+    okfull = None
+    for p in v.paths(max_visits=2):
+        if p.exit in ('noreturn', 'cut', 'throw'):
+            continue
+        evs = v.path_events(p)
+        rets = [e for e in evs if e.kind == 'return' and e.val is not None]
+        if not rets:
+            continue
+        rv = rets[-1].val
+        ws = [e for e in evs if e.kind in ('assign', 'incdec') and e.lhs[0] == 'var' and e.lhs[2] == 'range' and e.line <= rets[-1].line]
+        draws_in_ret = any(x[0] == 'call' and 'mt19937_gen' in repr(x) for x in ex.subterms(rv))
+        if any(x[0] == 'bin' and x[1] == '%' for x in ex.subterms(rv)):
+            # the modulo path: range = unsigned(max) - unsigned(min), then + 1, nothing else
+            shape = len(ws) == 2 and ws[0].kind == 'assign' and ws[1].kind == 'incdec' and ws[1].op in ('++', 'pre++', 'post++')
+            if not shape and len(ws) == 2 and ws[1].kind == 'assign':
+                shape = ws[1].op == '+=' and ws[1].rhs == ('int', 1)
+            diff = None
+            if ws and ws[0].kind == 'assign':
+                diff = ws[0].rhs
+                while diff[0] in ('cast', 'conv') and not (diff[2][0] == 'var'):
+                    diff = diff[2]
+            okd = diff is not None and diff[0] == 'bin' and diff[1] == '-' and unsigned_of(diff[2], pmax) and unsigned_of(diff[3], pmin)
+            okcount = (okcount is None or okcount) and bool(shape and okd)
+        elif draws_in_ret:
+            t = rv
+            while t[0] in ('cast', 'conv'):
+                t = t[2]
+            okfull = (okfull is None or okfull) and t[0] == 'bin' and t[1] == '+' and any(pmin in ex.subterms(x) for x in (t[2], t[3]))
+    ctx.check(bool(okcount), 'R2', 'the number of values is unsigned(max) - unsigned(min), plus one, before the limit is computed', where(ui),
+              'range is written %s' % ('as expected' if okcount else 'otherwise: max is never drawn without the + 1, and a signed difference overflows for wide ranges'), key='R2|uniform_int|number of values')
+    if okfull is not None:
+        ctx.check(bool(okfull), 'R2', 'the full-range shortcut returns the draw plus min', where(ui), '', key='R2|uniform_int|full range')
+    for nm_, cls_ in (('set_implem_xbt', 'XbtRandom'),):
+        fs = [f for f in P.fns.values() if f['q'] == NS + nm_ and f.get('blocks')]
+        if not fs:
+            raise AnalysisBroken('%s not found' % nm_)
+        sv = A.view(fs[0])
+        made = [x[1] if x[0] == 'call' else '' for eid in range(len(fs[0]['elems'])) for e in sv.events_of(eid) for x in ex.subterms(e.rhs if e.kind == 'assign' else (e.nf if e.kind == 'call' else ('none',)))
+                if x[0] == 'call' and isinstance(x[1], str) and x[1].startswith('std::make_unique')]
+        types_made = set(repr(n.get('c', {}).get('targs')) for el in fs[0]['elems'] for n in ex.walk(el['x']) if (n.get('c') or {}).get('n', '').startswith('std::make_unique'))
+        okm = bool(made) and all(cls_ in t for t in types_made) and bool(types_made)
+        ctx.check(okm, 'R1', '%s installs an %s' % (nm_, cls_), where(fs[0]), 'make_unique of %s' % sorted(types_made), key='R1|%s|implementation' % nm_)
     # ---- R3 uniform_real stays in [min, max] by construction ------------------------------------------------------------------------------------------
     ctx.rule('R3', 'uniform_real: the result is the lower bound plus a fraction in [0, 1) of the width - min + (max - min) x numerator / divisor, factors in any order, '
              'locals resolved - or is clamped to both bounds; the draw equal to the divisor is rejected.  A two-sided interpolation (1-r) x min + r x max rounds its two '
